@@ -220,9 +220,9 @@ void h_rnode_atom_bounded(void)
 	p[14] = 0;
 	char *pp = p;
 	struct rnode *n = rnode_atom(&pp);
-	__CPROVER_assert(pp >= p && pp <= p + 14, "rnode_atom: the parser stays inside the pattern string");
+	H_ASSERT(pp >= p && pp <= p + 14, "rnode_atom: the parser stays inside the pattern string");
 	if (n)
-		__CPROVER_assert(0 <= n->mincnt && n->mincnt <= NREPS && (n->maxcnt == -1 || (n->mincnt <= n->maxcnt && n->maxcnt <= NREPS)),
+		H_ASSERT(0 <= n->mincnt && n->mincnt <= NREPS && (n->maxcnt == -1 || (n->mincnt <= n->maxcnt && n->maxcnt <= NREPS)),
 			"rnode_atom: a node that is returned has 0 <= min <= NREPS and max == -1 or min <= max <= NREPS (bad, inverted or oversized bounds reject the pattern)");
 #ifdef CANARY
 	__CPROVER_assert(0, "canary");
@@ -265,13 +265,13 @@ void h_count_vs_emit(void)
 	struct rnode *root = rn == RN_ATOM ? mk_node(RN_ATOM, 0, 0) :
 		rn == RN_GRP ? mk_node(RN_GRP, nondet_bool() ? mk_leaf() : (struct rnode *) 0, 0) : mk_node(rn, mk_leaf(), mk_leaf());
 	int cnt = rnode_count(root);
-	__CPROVER_assert(cnt >= 0, "rnode_count: non-negative");
+	H_ASSERT(cnt >= 0, "rnode_count: non-negative");
 	struct regex re;
 	re.n = 0;
 	re.flg = 0;
 	re.p = malloc((cnt + 1) * sizeof(re.p[0]));	/* exactly the estimate (one spare entry so that an empty program has an array) */
 	rnode_emit(root, &re);
-	__CPROVER_assert(re.n <= cnt, "rnode_count >= number of instructions rnode_emit writes: the program fits the memory reserved");
+	H_ASSERT(re.n <= cnt, "rnode_count >= number of instructions rnode_emit writes: the program fits the memory reserved");
 #ifdef CANARY
 	__CPROVER_assert(0, "canary");
 #endif
@@ -449,15 +449,15 @@ void h_regcomp(void)
 	RKV.freed = 0; RKV.emitted = 0; RKV.parsed = 0;
 	int r = regcomp(&re, pat, flg);
 	if (r) {
-		__CPROVER_assert(re == 0 && !RKV.emitted, "regcomp: a rejected pattern produces no program");
-		__CPROVER_assert(!RKV.parsed || RKV.freed, "regcomp: the tree of a rejected pattern is released");
-		__CPROVER_assert(!RKV.parsed || RK.K >= NINST, "regcomp: a parsed pattern is rejected only when its size estimate is saturated");
+		H_ASSERT(re == 0 && !RKV.emitted, "regcomp: a rejected pattern produces no program");
+		H_ASSERT(!RKV.parsed || RKV.freed, "regcomp: the tree of a rejected pattern is released");
+		H_ASSERT(!RKV.parsed || RK.K >= NINST, "regcomp: a parsed pattern is rejected only when its size estimate is saturated");
 	} else {
-		__CPROVER_assert(RK.root != 0 && RK.K < NINST && RKV.emitted && RKV.freed, "regcomp: success means parsed, estimate not saturated, emitted, tree released");
-		__CPROVER_assert(re != 0 && re->p != 0 && 3 <= re->n && (long) re->n * (long) sizeof(struct rinst) <= (long) __CPROVER_OBJECT_SIZE(re->p), "regcomp: the program fits the memory reserved for it");
-		__CPROVER_assert(re->n <= RK.K + 3, "regcomp: at most estimate + 3 instructions");
-		__CPROVER_assert(re->p[re->n - 2].ri == RI_MARK && re->p[re->n - 2].mark == 1 && re->p[re->n - 1].ri == RI_MATCH, "regcomp: the program ends with mark 1, match");
-		__CPROVER_assert(re->flg == flg, "regcomp: the flags are stored");
+		H_ASSERT(RK.root != 0 && RK.K < NINST && RKV.emitted && RKV.freed, "regcomp: success means parsed, estimate not saturated, emitted, tree released");
+		H_ASSERT(re != 0 && re->p != 0 && 3 <= re->n && (long) re->n * (long) sizeof(struct rinst) <= (long) __CPROVER_OBJECT_SIZE(re->p), "regcomp: the program fits the memory reserved for it");
+		H_ASSERT(re->n <= RK.K + 3, "regcomp: at most estimate + 3 instructions");
+		H_ASSERT(re->p[re->n - 2].ri == RI_MARK && re->p[re->n - 2].mark == 1 && re->p[re->n - 1].ri == RI_MATCH, "regcomp: the program ends with mark 1, match");
+		H_ASSERT(re->flg == flg, "regcomp: the flags are stored");
 	}
 #ifdef CANARY
 	__CPROVER_assert(0, "canary");
@@ -483,9 +483,9 @@ void h_ratom_read_bounded(void)
 	char *pat = p;
 	ra.s = 0;
 	ratom_read(&ra, &pat);
-	__CPROVER_assert(pat > p && pat <= p + n + 1, "ratom_read: the reader consumes at least one byte and stops at or before the terminator");
+	H_ASSERT(pat > p && pat <= p + n + 1, "ratom_read: the reader consumes at least one byte and stops at or before the terminator");
 	if (ra.ra == RA_CHR)
-		__CPROVER_assert(ra.s != 0 && ra.s[pat - p - (p[0] == '\\' ? 1 : 0)] == 0, "ratom_read: the literal copied is exactly the bytes consumed");
+		H_ASSERT(ra.s != 0 && ra.s[pat - p - (p[0] == '\\' ? 1 : 0)] == 0, "ratom_read: the literal copied is exactly the bytes consumed");
 	/* C16: on a well-formed tail the run ends on a character boundary, and a repetition operator applies to one whole character */
 	int l0 = uc_len(p), wf = 1;
 	for (i = 1; i < 4; i++)
@@ -494,9 +494,9 @@ void h_ratom_read_bounded(void)
 	if (((unsigned char) p[0] & 0xc0) == 0x80 || (unsigned char) p[0] >= 0xf8 || l0 > n)
 		wf = 0;
 	if (wf && l0 + 1 == n && ra.ra == RA_CHR && p[0] != '\\' && (p[l0] == '*' || p[l0] == '?' || p[l0] == '+' || p[l0] == '{'))
-		__CPROVER_assert(pat == p + l0, "ratom_read: a repetition operator applies to one whole character");
+		H_ASSERT(pat == p + l0, "ratom_read: a repetition operator applies to one whole character");
 	if (wf && l0 == n && ra.ra == RA_CHR && p[0] != '\\')
-		__CPROVER_assert(pat == p + n, "ratom_read: a literal character is consumed whole (the run ends on a character boundary)");
+		H_ASSERT(pat == p + n, "ratom_read: a literal character is consumed whole (the run ends on a character boundary)");
 #ifdef CANARY
 	__CPROVER_assert(0, "canary");
 #endif
